@@ -162,8 +162,11 @@ def run(tier, seed):
         "generator order/uniqueness, sub-pyramid vs full; plus position algebra on every pair of positions to depth %d; "
         "non-trivial = filtered or sub-pyramid case with live tiles, or a pair/position below the root" % (4 if tier == "quick" else 5)
     )
-    rep.assumptions = ["depth-2 filters are exhaustive (17^4); depth-3 filters are exhaustive inside one level-1 quadrant (thorough)"]
-    cases = rng_order(c01.e2_cases(tier), seed)
+    rep.assumptions = ["depth-2 filters are exhaustive (17^4, both coordinate systems in thorough); depth-3 filters are exhaustive inside each single level-1 quadrant (thorough)"]
+    cases = c01.e2_cases(tier)
+    if tier == "thorough":
+        cases = cases + c01.e2_extra_cases()
+    cases = rng_order(cases, seed)
     n = par.ncores() * 3
     jobs = [("algebra", 4 if tier == "quick" else 5)] + [("cases", cases[i::n]) for i in range(n)]
     par.pmap(_work, jobs, rep)
